@@ -44,12 +44,54 @@ def jround(x):
     return json.loads(json.dumps(x, allow_nan=False))
 
 
+class SchemaBuildCrash(Exception):
+    """build_json_schema did not answer: it neither returned a schema nor reported the type as unsupported"""
+
+
+class _Alarm(BaseException):      # not an Exception: the library's `except Exception` / suppress blocks must not swallow it
+    pass
+
+
+BUILD_LIMIT_S = 60      # a schema is built in milliseconds; the limit only turns a hang into a finding (generous: loaded machines)
+_crashes = [0]          # after three crashes / hangs in a run the limit drops (the run is a VIOLATION already; keep it short)
+
+
+def unsupported_exc(e: BaseException) -> bool:
+    """the ways the library says "no schema / no serializer for this type" (outside the property)"""
+    return type(e).__module__.startswith("mashumaro") or isinstance(e, NotImplementedError)
+
+
 def build_schema(T, dialect: str, all_refs: bool):
     """real schema as a plain JSON document a standard validator can resolve: for the
-    OpenAPI dialect the definitions are moved to where its $refs point (#/components/schemas)"""
+    OpenAPI dialect the definitions are moved to where its $refs point (#/components/schemas).
+    A crash that is not the library's "unsupported" signal (RecursionError, ...) or a hang is a SchemaBuildCrash."""
+    import signal
+    import warnings
     from mashumaro.jsonschema import build_json_schema, DRAFT_2020_12, OPEN_API_3_1
     dl = DRAFT_2020_12 if dialect == "DRAFT_2020_12" else OPEN_API_3_1
-    s = jround(build_json_schema(T, dialect=dl, all_refs=all_refs).to_dict())
+
+    def on_alarm(signum, frame):
+        raise _Alarm()
+    limit = BUILD_LIMIT_S if _crashes[0] < 3 else 5
+    old = signal.signal(signal.SIGALRM, on_alarm)
+    signal.alarm(limit)
+    try:
+        with warnings.catch_warnings():
+            warnings.simplefilter("ignore")     # "Type Any will be used ... Function doesn't have return annotation"
+            s = build_json_schema(T, dialect=dl, all_refs=all_refs).to_dict()
+    except _Alarm:
+        _crashes[0] += 1
+        raise SchemaBuildCrash(f"no answer within {limit} s") from None
+    except (RecursionError, MemoryError) as e:
+        _crashes[0] += 1
+        raise SchemaBuildCrash(f"{type(e).__name__}: {str(e)[:200]}") from None
+    finally:
+        signal.alarm(0)
+        signal.signal(signal.SIGALRM, old)
+    try:
+        s = jround(s)
+    except RecursionError as e:
+        raise SchemaBuildCrash(f"schema document too deep to dump: {type(e).__name__}") from None
     if dialect == "OPEN_API_3_1" and isinstance(s, dict) and "$defs" in s:
         s = dict(s)
         s["components"] = {"schemas": s.pop("$defs")}
@@ -417,8 +459,18 @@ def run_case(ctx, tbl, root, vspecs, src, probe):
         try:
             for dl, ar in COMBOS:
                 schemas[(dl, ar)] = build_schema(T, dl, ar)
+        except SchemaBuildCrash as e:
+            ctx.fail(f"build_json_schema crashed or hung on a supported type: {e} (type {G.ty_src(root, tbl, [])[:80]})",
+                     {"entry": "build_json_schema(ROOT)", "source": src, "type": G.ty_src(root, tbl, []), "dialect": dl, "all_refs": ar,
+                      "check": "build", "observed": str(e), "expected": "a schema, or the library's unsupported-type error"},
+                     {"kind": "schema-build-crash"})
+            return 0
         except Exception as e:
-            ctx.hist("skipped", "schema-unsupported:" + type(e).__name__)
+            if not unsupported_exc(e):
+                ctx.hist("skipped", "schema-build-error:" + type(e).__name__)
+                ctx.notes.append(f"schema build error {type(e).__name__}: {str(e)[:120]} for {G.ty_src(root, tbl, [])[:100]}")
+            else:
+                ctx.hist("skipped", "schema-unsupported:" + type(e).__name__)
             return 0
         try:
             H = make_holder(m)
@@ -583,6 +635,16 @@ FIXED_CASES = [
      "def _sr(v) -> str:\n    return 's'\n@dataclass\nclass Ov(DataClassDictMixin):\n"
      "    x: Optional[int] = field(metadata=field_options(serialize=_sr))\n    y: int = field(default=1, metadata=field_options(serialize=_sr))\n",
      "Ov", ["Ov(1)", "Ov(None)"]),
+    ("field-level override with a container / missing return annotation (42523b8)",
+     "def _fl(v) -> List[str]:\n    return [str(v)]\ndef _fd(v) -> Dict[str, List[int]]:\n    return {'a': [v]}\ndef _fu(v):\n    return v\n"
+     "class _SS(SerializationStrategy):\n    def serialize(self, v) -> List[int]:\n        return [v]\n    def deserialize(self, v):\n        return v[0]\n"
+     "@dataclass\nclass Fo(DataClassDictMixin):\n    x: int = field(metadata={'serialize': _fl})\n"
+     "    y: int = field(metadata=field_options(serialize=_fd))\n"
+     "    z: int = field(metadata=field_options(serialization_strategy={'serialize': lambda v: v}))\n"
+     "    w: int = field(metadata=field_options(serialize=_fu))\n    u: int = field(metadata=field_options(serialization_strategy=_SS()))\n"
+     "    t: List[int] = field(metadata=field_options(serialization_strategy={'serialize': _fl}))\n"
+     "    l: List[List[int]] = field(default_factory=list, metadata=field_options(serialize=_fl))\n",
+     "Fo", ["Fo(1, 2, 3, 4, 5, [6])", "Fo(1, 2, 3, 4, 5, [], [[7]])"]),
     ("same name", "def mk(t):\n    @dataclass\n    class P(DataClassDictMixin):\n        v: t\n    return P\nP1 = mk(int)\nP2 = mk(str)\n"
                   "@dataclass\nclass HP(DataClassDictMixin):\n    a: P1\n    b: P2\n", "HP", ["HP(P1(1), P2('s'))"]),
 ]
@@ -1092,7 +1154,13 @@ def run_fixed(ctx, descr, src, vals):
     try:
         H = make_holder(m)
         for dl, ar in COMBOS:
-            s = build_schema(m.ROOT, dl, ar)
+            try:
+                s = build_schema(m.ROOT, dl, ar)
+            except SchemaBuildCrash as e:
+                ctx.fail(f"{descr}: build_json_schema crashed or hung: {e}",
+                         {"entry": "fixed", "source": src, "dialect": dl, "all_refs": ar, "check": "build", "observed": str(e),
+                          "expected": "a schema"}, {"kind": "schema-build-crash"})
+                break
             for node in schema_nodes(s):
                 mn, mx = node.get("minItems"), node.get("maxItems")
                 if mn is not None and mx is not None and mn > mx:
@@ -1181,6 +1249,15 @@ def replay(rep: dict) -> int:
                 print("error:", e.validator, list(e.absolute_path), e.message[:200])
             print("REPRODUCED" if errs else "not reproduced")
             return 1 if errs else 0
+        if chk == "build":
+            try:
+                build_schema(m.ROOT, rep["dialect"], rep["all_refs"])
+            except SchemaBuildCrash as e:
+                print("build_json_schema:", e)
+                print("REPRODUCED")
+                return 1
+            print("not reproduced")
+            return 0
         if chk == "satisfiable":
             s = build_schema(m.ROOT, rep["dialect"], rep["all_refs"])
             bad = [nd for nd in schema_nodes(s) if nd.get("minItems") is not None and nd.get("maxItems") is not None and nd["minItems"] > nd["maxItems"]]
